@@ -28,7 +28,7 @@ from ..sim import HarnessError, Abort, MS
 PID = "C06"
 TO_NODE = 0  # the node under test is the master (every sender is one of its children)
 STRAY_SENDER, UNFRAG_SENDER = 0o4, 0o5
-ALL_KINDS = ("next", "skip", "twice", "swap", "rewind")
+ALL_KINDS = ("next", "skip", "twice", "swap", "rewind")  # ("again" only where a configuration names it)
 
 
 # ---------------------------------------------------------------- configurations
@@ -51,6 +51,14 @@ def cfg_list(tier, seed):
     c.append(dict(name="single-n2", streams=[S(0o1, X, 65, 2)], strays=False))
     c.append(dict(name="single-n3", streams=[S(0o1, X, 65, 3)], strays=False))
     c.append(dict(name="small-type-n3", streams=[S(0o1, X, 3, 3)], strays=False))
+    # a queue with room for 1 (2) frames: the LAST fragment arrives while the queue is full, the application reads, the same
+    # fragment arrives again ("again": the most recently delivered fragment of a stream is repeated at any later moment,
+    # e.g. a re-transmission after a lost acknowledgement that the radio's PID filter no longer catches)
+    AG = ("next", "skip", "twice", "again")
+    c.append(dict(name="single-n2-queue-of-1", streams=[S(0o1, X, 65, 2)], strays=False, maxq=1, kinds=AG, empty=True))
+    c.append(dict(name="single-n3-queue-of-1", streams=[S(0o1, X, 65, 3)], strays=False, maxq=1, kinds=AG))
+    c.append(dict(name="2-senders-same-id-queue-of-2", streams=[S(0o1, X, 65, 2), S(0o2, X, 66, 2)], strays=False, maxq=2, kinds=AG))
+    c.append(dict(name="single-n3-again", streams=[S(0o1, X, 65, 3)], strays=False, kinds=ALL_KINDS + ("again",), empty=True))
     if q:
         # the largest message of the quantifier (7 fragments, 149 bytes - more than the 144 a node's own sender produces)
         c.append(dict(name="single-n7", streams=[S(0o1, X, 65, 7)], strays=False, kinds=("next", "skip", "twice")))
@@ -65,7 +73,7 @@ def cfg_list(tier, seed):
         x.update(seed=seed, depth=dq, part="queue")
     # through a real node's update(): the configurations that exercise every kind of event
     nodecfg = []
-    for name in ("2-senders-same-id", "single-n4-strays", "blank-cache-id", "3-senders"):
+    for name in ("2-senders-same-id", "single-n4-strays", "blank-cache-id", "3-senders", "single-n2-queue-of-1", "single-n3-again"):
         x = dict([y for y in c if y["name"] == name][0])
         x.update(part="node", depth=dn)
         nodecfg.append(x)
@@ -86,10 +94,12 @@ class Cfg:
             spec.append(dict(sender=STRAY_SENDER, fid=0, mtype=70, n=3, label="stray-blank"))
             spec.append(dict(sender=STRAY_SENDER, fid=Z, mtype=72, n=3, label="stray-other"))
         spec.append(dict(sender=UNFRAG_SENDER, fid=0x0555, mtype=71, n=1, label="unfragmented"))
+        if d.get("empty"):  # a message without a body (header-only frame), e.g. a heartbeat
+            spec.append(dict(sender=UNFRAG_SENDER, fid=0x0556, mtype=73, n=1, label="unfragmented-empty", empty=True))
         for si, s in enumerate(spec):
             n = s["n"]
             if n == 1:
-                bodies = [H.pattern(10, seed, 900 + si)]
+                bodies = [b"" if s.get("empty") else H.pattern(10, seed, 900 + si)]
             else:
                 bodies = [H.pattern(24, seed, 100 + 16 * si + fi) for fi in range(n - 1)]
                 bodies.append(H.pattern(5 + si, seed, 100 + 16 * si + n - 1))
@@ -102,7 +112,8 @@ class Cfg:
             if outs[-1] != msg or any(o is not None for o in outs[:-1]):
                 raise HarnessError("reference encoder/reassembler round trip failed")
             self.streams.append(dict(msg=msg, frames=frames, sender=s["sender"], label=s.get("label", "stream%d" % si)))
-        self.unfrag = len(self.streams) - 1
+        self.unfrag = len(self.streams) - (2 if d.get("empty") else 1)
+        self.unfrag_empty = len(self.streams) - 1 if d.get("empty") else None
         self.stray_events = []
         if d["strays"]:
             for si in (self.n_reg, self.n_reg + 1):
@@ -122,24 +133,31 @@ class Cfg:
                     ev.append(("swap", k))
             if not hs.rewound[k] and todo != tuple(range(n)) and "rewind" in kinds:
                 ev.append(("rewind", k))
-        for j, _ in enumerate(self.stray_events):
+            if "again" in kinds and hs.last[k] is not None and not hs.again[k]:
+                ev.append(("again", k))
+        ns = len(self.stray_events)
+        for j in range(ns):
             if not hs.used[j]:
                 ev.append(("stray", j))
-        if not hs.used[-1]:
+        if not hs.used[ns]:
             ev.append(("unfrag",))
+        if self.unfrag_empty is not None and not hs.used[ns + 1]:
+            ev.append(("unfrag0",))
         ev.append(("deq",))
         return ev
 
 
 class HS:
     """harness + model side of a state (all values immutable)"""
-    __slots__ = ("todo", "swapped", "rewound", "used", "handed", "prev")
+    __slots__ = ("todo", "swapped", "rewound", "used", "handed", "prev", "last", "again")
 
     def __init__(self, cfg):
         self.todo = tuple(tuple(range(len(cfg.streams[k]["frames"]))) for k in range(cfg.n_reg))
         self.swapped = (False,) * cfg.n_reg
         self.rewound = (False,) * cfg.n_reg
-        self.used = (False,) * (len(cfg.stray_events) + 1)
+        self.used = (False,) * (len(cfg.stray_events) + (2 if cfg.unfrag_empty is not None else 1))
+        self.last = (None,) * cfg.n_reg  # index of the fragment of stream k delivered most recently
+        self.again = (False,) * cfg.n_reg
         self.handed = (0,) * len(cfg.streams)
         self.prev = ()
 
@@ -169,12 +187,16 @@ def mk_state(cfg):
     if cfg.d["part"] == "node":
         w = sim.World().activate()
         node, radio = H.mk_node(w, TO_NODE)
+        if cfg.d.get("maxq"):
+            node.queue.max_queue_size = cfg.d["maxq"]
         ghost = H.mk_ghost_tx(w, "ghost")
         w.advance(1 * MS)
         st.pack, st.q, st.buf = (w, node, radio, ghost), None, None
     else:
         st.pack = None
         st.q = H.m_structs.FrameQueueFrag()
+        if cfg.d.get("maxq"):
+            st.q.max_queue_size = cfg.d["maxq"]
         st.buf = H.RF24NetworkFrame()
     return st
 
@@ -279,11 +301,18 @@ def step(st, ev, cfg, pid=PID):
         fr = cfg.streams[k]["frames"]
         if kind == "swap":
             sends = [fr[todo[1]]]
+            hs.last = _set(hs.last, k, todo[1])
             hs.todo = _set(hs.todo, k, (todo[0],) + todo[2:])
             hs.swapped = _set(hs.swapped, k, True)
         else:
             sends = {"next": [fr[todo[0]]], "skip": [], "twice": [fr[todo[0]]] * 2}[kind]
+            if sends:
+                hs.last = _set(hs.last, k, todo[0])
             hs.todo = _set(hs.todo, k, todo[1:])
+    elif kind == "again":
+        k = ev[1]
+        sends = [cfg.streams[k]["frames"][hs.last[k]]]
+        hs.again = _set(hs.again, k, True)
     elif kind == "rewind":
         k = ev[1]
         hs.todo = _set(hs.todo, k, tuple(range(len(cfg.streams[k]["frames"]))))
@@ -294,7 +323,10 @@ def step(st, ev, cfg, pid=PID):
         hs.used = _set(hs.used, ev[1], True)
     elif kind == "unfrag":
         sends = [cfg.streams[cfg.unfrag]["frames"][0]]
-        hs.used = _set(hs.used, len(hs.used) - 1, True)
+        hs.used = _set(hs.used, len(cfg.stray_events), True)
+    elif kind == "unfrag0":
+        sends = [cfg.streams[cfg.unfrag_empty]["frames"][0]]
+        hs.used = _set(hs.used, len(cfg.stray_events) + 1, True)
     elif kind != "deq":
         raise HarnessError("unknown event %r" % (ev,))
 
@@ -418,6 +450,8 @@ def e2e_items(tier, seed):
         for n, t in ((0, 65), (10, 127), (24, 1), (24, 191), (30, 65), (49, 1), (60, 127)):
             k += 1
             cases.append(dict(topo="chain", src=s_, dst=d_, mlen=n, mtype=t, frag=True, cost=0, lat=k % 3, api="send", seed=seed, id0=(k * 7919) & 0xFFFF))
+            # ... and sent with a re-used header object that already names an origin (reply idiom: the peer's address; or a third node's)
+            cases.append(dict(cases[-1], hdr_from="dst" if k % 2 else 0o2, api="send" if k % 4 < 2 else "write"))
     # two fragmented messages in a row from one sender through a relay that loses any subset of the frames it forwards
     # (the origin does not notice: types below 65 are not acknowledged end to end): what the destination's application
     # gets is one of the two messages or nothing - never the head of one completed by the tail of the other
@@ -461,7 +495,10 @@ def run(tier, seed, rep, only=None):
                     events=["next(k)", "skip(k)", "twice(k)", "swap(k) (fragment j+1 before j, once per stream)",
                             "rewind(k) (the sender starts the same message over, once per stream)",
                             "stray MORE / stray LAST of a message whose other fragments were lost (id 0 = fresh cache's id, or another id)",
-                            "one complete unfragmented frame", "deq"]),
+                            "one complete unfragmented frame", "one complete frame with an empty message (configurations with it)",
+                            "again(k) (the fragment of stream k delivered most recently arrives once more, at any later moment; configurations with it)",
+                            "deq"],
+                    queue_capacity="default 6; 1 or 2 in the *-queue-of-N configurations"),
         trusted_base=["vf/ref/reasm.py (reference encoder + judge)", "vf/sim.py and vf/harness.py net_pipe_address (node part only)"],
         assumptions=["fragment bodies are seed-derived, pairwise different and prefix-free (so the composition of a delivered frame is decidable)",
                      "the receiving node is the master (address 0); senders are its children 0o1..0o5",
